@@ -186,10 +186,36 @@ impl Property for C14 {
             // bound the work per image: beyond the cap an evenly spread subset is kept
             let cap = if mode == 1 { usize::MAX } else if thorough { 30_000 } else { 1_200 };
             if muts.len() > cap { let k = muts.len().div_ceil(cap); let off = (fnv(0, img) as usize) % k; muts = muts.into_iter().enumerate().filter(|(i, _)| i % k == off).map(|(_, m)| m).collect(); } else if mode != 1 { rep.probe("image_damage_enumerated_completely"); }
+            // WAL: where each entry lies in the file, and its stamp (for the read with a stamp threshold below)
+            let wal_layout: Vec<(usize, usize, u64)> = if *enc == 0 { let mut off = 16usize; fdeltas.iter().filter_map(|d| WalEntry::from_delta(d, d.value.timestamp.time).ok().map(|e| { let s = off; off += e.disk_size(); (s, off, e.timestamp) })).collect() } else { Vec::new() };
             for m in muts {
                 let dmg = apply(img, m);
                 if dmg == *img { continue; }
                 rep.evals += 1;
+                if *enc == 0 && !wal_layout.is_empty() {
+                    // the read that skips entries below a stamp threshold must end at the damage as well: nothing
+                    // that lies behind the first damaged byte may come back
+                    let at = match m { Mut::Trunc(l) => l, Mut::Flip(b, _) | Mut::Flip2(b, _, _) | Mut::Burst(b, _) => b };
+                    if at >= 16 {
+                        let intact = wal_layout.iter().take_while(|(_, end, _)| *end <= at).count();
+                        let mut stamps: Vec<u64> = wal_layout.iter().map(|x| x.2).collect(); stamps.sort();
+                        let thr = stamps[stamps.len() / 2];
+                        let allowed = wal_layout[..intact].iter().filter(|x| x.2 >= thr).count();
+                        let mut image = Image::new(); image.insert("wal-00000001.wal".to_string(), dmg.clone());
+                        if let Ok(rot) = WalRotator::new(SimWalStore::from_image(&image), 1 << 30) {
+                            if let Ok(ds) = rot.recover_entries_after(thr) {
+                                rep.probe("wal_threshold_read_under_damage");
+                                if ds.len() > allowed {
+                                    let msg = format!("wal file of {} bytes with {:?}: recover_entries_after({}) returned {} updates although only {} entries with such a stamp lie wholly before the first damaged byte ({} intact entries of {})", len, m, thr, ds.len(), allowed, intact, wal_layout.len());
+                                    let (kind, off, arg) = match m { Mut::Trunc(l) => (0u64, l, 0u64), Mut::Flip(b, bit) => (1, b, bit as u64), Mut::Flip2(b, x, y) => (2, b, x as u64 + 8 * y as u64), Mut::Burst(b, p) => (3, b, p as u64) };
+                                    rep.retarget = Some(vec![(H_MODE, 1), (H_ENC, *enc), (H_KIND, kind), (H_OFF, off as u64), (H_ARG, arg)]);
+                                    rep.violate("C14/damage-not-ending-recovery/wal-threshold-read", msg);
+                                    return rep;
+                                }
+                            }
+                        }
+                    }
+                }
                 let res = decode(*enc, &dmg, true);
                 let verdict: Option<(String, String)> = match res {
                     Err(_) => { rep.probe("damage_detected"); None }
